@@ -238,3 +238,48 @@ package state
 //@   props C03 C18
 //@   requires s != nil
 //@   ensures [C18.store.all.fresh] result != nil
+
+// ---------------------------------------------------------------- helper constructors (C19, round-trip half)
+// The message a constructor builds carries exactly the key, operation, entity
+// type and the JSON encodings of the values it was given.  That decoding the
+// encoded value yields the value again is the assumed json round-trip law.
+//@ event newMsgCall := call newChangeMessage
+//@ func newChangeMessage
+//@   props C19
+//@   requires forall k int :: {opts[k]} 0 <= k && k < len(opts) ==> opts[k] != nil
+//@   loop 1 invariant [idx] rangeindex < len(opts) && -1 <= rangeindex
+//@   loop 1 invariant [cfg] cfg != nil && fresh(cfg)
+//@   ensures [C19.new.key] key == "" ==> err != nil && result0 == nil
+//@   ensures [C19.new.ok] err == nil ==> result0 != nil && fresh(result0) && result0.Key == key && result0.Headers.Operation == op && key != ""
+//@   ensures [C19.new.value] err == nil && value != nil ==> result0.Value == json(boxOf(*T, value))
+//@   ensures [C19.new.novalue] err == nil && value == nil ==> result0.Value == ""
+//@   ensures [C19.new.old] err == nil && oldValue != nil ==> result0.OldValue == json(boxOf(*T, oldValue))
+//@   ensures [C19.new.noold] err == nil && oldValue == nil ==> result0.OldValue == ""
+//@   ensures [C19.new.fail] (value != nil && !jsonOK(boxOf(*T, value))) || (oldValue != nil && !jsonOK(boxOf(*T, oldValue))) ==> err != nil
+
+//@ func Insert
+//@   props C19
+//@   requires forall k int :: {opts[k]} 0 <= k && k < len(opts) ==> opts[k] != nil
+//@   ensures [C19.insert] cnt(newMsgCall) == 1 && lastarg(newMsgCall, 0, String) == "insert" && lastarg(newMsgCall, 1, String) == key &&
+//@        lastarg(newMsgCall, 2) != nil && *lastarg(newMsgCall, 2, *T) == value && lastarg(newMsgCall, 3) == nil
+//@ func Update
+//@   props C19
+//@   requires forall k int :: {opts[k]} 0 <= k && k < len(opts) ==> opts[k] != nil
+//@   ensures [C19.update] cnt(newMsgCall) == 1 && lastarg(newMsgCall, 0, String) == "update" && lastarg(newMsgCall, 1, String) == key &&
+//@        lastarg(newMsgCall, 2) != nil && *lastarg(newMsgCall, 2, *T) == value && lastarg(newMsgCall, 3) == nil
+//@ func UpdateWithOldValue
+//@   props C19
+//@   requires forall k int :: {opts[k]} 0 <= k && k < len(opts) ==> opts[k] != nil
+//@   ensures [C19.updateold] cnt(newMsgCall) == 1 && lastarg(newMsgCall, 0, String) == "update" && lastarg(newMsgCall, 1, String) == key &&
+//@        lastarg(newMsgCall, 2) != nil && *lastarg(newMsgCall, 2, *T) == value && lastarg(newMsgCall, 3) != nil && *lastarg(newMsgCall, 3, *T) == oldValue &&
+//@        lastarg(newMsgCall, 2) != lastarg(newMsgCall, 3)
+//@ func Delete
+//@   props C19
+//@   requires forall k int :: {opts[k]} 0 <= k && k < len(opts) ==> opts[k] != nil
+//@   ensures [C19.delete] cnt(newMsgCall) == 1 && lastarg(newMsgCall, 0, String) == "delete" && lastarg(newMsgCall, 1, String) == key &&
+//@        lastarg(newMsgCall, 2) == nil && lastarg(newMsgCall, 3) == nil
+//@ func DeleteWithOldValue
+//@   props C19
+//@   requires forall k int :: {opts[k]} 0 <= k && k < len(opts) ==> opts[k] != nil
+//@   ensures [C19.deleteold] cnt(newMsgCall) == 1 && lastarg(newMsgCall, 0, String) == "delete" && lastarg(newMsgCall, 1, String) == key &&
+//@        lastarg(newMsgCall, 2) == nil && lastarg(newMsgCall, 3) != nil && *lastarg(newMsgCall, 3, *T) == oldValue
